@@ -29,7 +29,8 @@ Step(q) ==
                   [] q.k = "perm" -> Permuted(q)
                   [] q.k = "close" -> CloseSeq(q)
                   [] q.k = "same" -> Same(q)
-       IN [ok |-> c = "", clause |-> c]
+       IN [ok |-> c = "", clause |-> c,
+           bad |-> IF q.k \in {"point", "revobs"} /\ c = "spreading_pressure_is_not_the_integral_of_loading" THEN QuadBad(q) ELSE {}]
 
 ASSUME JsonSerialize(IOEnv.X_OUT, [i \in 1..Len(Q) |-> Step(Q[i])])
 VARIABLE x
